@@ -206,7 +206,11 @@ func runSkipper(which int, b []byte, t byte, r *rand.Rand, sched int, withData b
 		})
 	case skBufReaderDR:
 		return guarded(func() skipOut {
-			src := &doubles.Source{Data: b, Len: len(b), ErrAt: len(b), Err: io.EOF, Sched: sched, R: r, WithData: withData, ZeroMax: 2, Budget: 10*len(b) + 100000}
+			var src io.Reader = &doubles.Source{Data: b, Len: len(b), ErrAt: len(b), Err: io.EOF, Sched: sched, R: r, WithData: withData, ZeroMax: 2, Budget: 10*len(b) + 100000}
+			if r.Intn(4) == 0 {
+				// a standard-library reader holding the stream: it can do more than Read (Seek, Len, WriteTo, ReadAt...)
+				src = stdSource(1+r.Intn(nStdSources), b)
+			}
 			dr := bufiox.NewDefaultReader(src)
 			br := thrift.NewBufferReader(dr)
 			defer br.Recycle()
@@ -233,7 +237,11 @@ func runSkipper(which int, b []byte, t byte, r *rand.Rand, sched int, withData b
 		})
 	case skSkipDecDR:
 		return guarded(func() skipOut {
-			src := &doubles.Source{Data: b, Len: len(b), ErrAt: len(b), Err: io.EOF, Sched: sched, R: r, WithData: withData, ZeroMax: 2, Budget: 10*len(b) + 100000}
+			var src io.Reader = &doubles.Source{Data: b, Len: len(b), ErrAt: len(b), Err: io.EOF, Sched: sched, R: r, WithData: withData, ZeroMax: 2, Budget: 10*len(b) + 100000}
+			if r.Intn(4) == 0 {
+				// a standard-library reader holding the stream: it can do more than Read (Seek, Len, WriteTo, ReadAt...)
+				src = stdSource(1+r.Intn(nStdSources), b)
+			}
 			dr := bufiox.NewDefaultReader(src)
 			d := thrift.NewSkipDecoder(dr)
 			defer d.Release()
@@ -351,6 +359,26 @@ func arena() *san.Arena {
 		theArena = san.NewArena(1 << 20)
 	}
 	return theArena
+}
+
+var theROArena *san.ROArena
+
+// placeReadOnly copies b into write-protected pages (ending at a guard page): for inputs that live in memory
+// nobody may write to (a mapped file, a string's bytes). ok is false when b does not fit or is empty.
+func placeReadOnly(b []byte) (in []byte, ok bool) {
+	if theROArena == nil {
+		theROArena = san.NewROArena(1 << 18)
+	}
+	if len(b) == 0 || len(b) > theROArena.Cap() {
+		return nil, false
+	}
+	return theROArena.Set(b), true
+}
+
+// isWriteToInputPanic: a fault inside the write-protected input arena (reads there succeed, so it was a store).
+func isWriteToInputPanic(p interface{}) bool {
+	addr, ok := san.IsFault(p)
+	return ok && theROArena != nil && theROArena.InBody(addr)
 }
 
 // place copies b into the guard-page arena (0: end placement, 1: start placement).
